@@ -320,11 +320,11 @@ Proof.
   destruct m; cbn [is_options is_trace andb].
   1-5: (intros H; exfalso;
         destruct nocache; [destruct (loop_detected c hs); discriminate H|];
-        destruct cache; [destruct (loop_detected c hs); discriminate H|discriminate H|discriminate H]).
+        destruct cache; [destruct (loop_detected c hs); discriminate H|discriminate H|destruct (loop_detected c hs); discriminate H]).
   - destruct (mf_first hs =? 0)%Z eqn:E0; [intros _; split; [reflexivity|lia]|].
     intros H; exfalso.
     destruct nocache; [destruct (loop_detected c hs); discriminate H|].
-    destruct cache; [destruct (loop_detected c hs); discriminate H|discriminate H|discriminate H].
+    destruct cache; [destruct (loop_detected c hs); discriminate H|discriminate H|destruct (loop_detected c hs); discriminate H].
   - destruct (mf_first hs =? 0)%Z; [discriminate|]. destruct (loop_detected c hs); discriminate.
 Qed.
 
